@@ -525,6 +525,23 @@ func AtomicPost(g *G, o *AObj, addr unsafe.Pointer, val uint64, wrote bool) {
 	if wrote {
 		e.touchObj(ob, mix(0xA7, val))
 	}
+	// Race mode. The real operation above is invisible to the detector (this package is built
+	// without instrumentation and the compiler intrinsifies sync/atomic here), so the edges and
+	// the access are declared by hand: every atomic operation acquires and releases the object's
+	// token (Go's atomics are sequentially consistent: an operation that observes another is
+	// synchronised after it; ordering *all* operations on one address is slightly stronger and
+	// can only hide, never invent, a report), and for a raw pointer the access itself is
+	// declared, so that a plain access elsewhere that is not ordered with it is reported
+	// (mixed atomic/plain use of one variable).
+	raceAcquire(unsafe.Pointer(&ob.tok))
+	if addr != nil {
+		if wrote {
+			raceWrite(addr)
+		} else {
+			raceRead(addr)
+		}
+	}
+	raceReleaseMerge(unsafe.Pointer(&ob.tok))
 }
 
 // AObj is embedded in the typed atomic shims.
@@ -564,7 +581,7 @@ func (x *AtomicBool) Swap(new bool) bool {
 func (x *AtomicBool) CompareAndSwap(old, new bool) bool {
 	g := AtomicPre(false)
 	ok := x.v.CompareAndSwap(old, new)
-	AtomicPost(g, &x.a, nil, b2u(x.v.Load())|b2u(ok)<<1, true)
+	AtomicPost(g, &x.a, nil, b2u(x.v.Load())|b2u(ok)<<1, ok)
 	return ok
 }
 
@@ -599,7 +616,7 @@ func (x *AtomicInt32) Swap(new int32) int32 {
 func (x *AtomicInt32) CompareAndSwap(old, new int32) bool {
 	g := AtomicPre(false)
 	ok := x.v.CompareAndSwap(old, new)
-	AtomicPost(g, &x.a, nil, uint64(uint32(x.v.Load()))|b2u(ok)<<32, true)
+	AtomicPost(g, &x.a, nil, uint64(uint32(x.v.Load()))|b2u(ok)<<32, ok)
 	return ok
 }
 
@@ -634,7 +651,7 @@ func (x *AtomicInt64) Swap(new int64) int64 {
 func (x *AtomicInt64) CompareAndSwap(old, new int64) bool {
 	g := AtomicPre(false)
 	ok := x.v.CompareAndSwap(old, new)
-	AtomicPost(g, &x.a, nil, mix(H(x.v.Load()), b2u(ok)).u(), true)
+	AtomicPost(g, &x.a, nil, mix(H(x.v.Load()), b2u(ok)).u(), ok)
 	return ok
 }
 
@@ -665,7 +682,7 @@ func (x *AtomicUint32) Add(d uint32) uint32 {
 func (x *AtomicUint32) CompareAndSwap(old, new uint32) bool {
 	g := AtomicPre(false)
 	ok := x.v.CompareAndSwap(old, new)
-	AtomicPost(g, &x.a, nil, uint64(x.v.Load())|b2u(ok)<<32, true)
+	AtomicPost(g, &x.a, nil, uint64(x.v.Load())|b2u(ok)<<32, ok)
 	return ok
 }
 
@@ -694,7 +711,7 @@ func (x *AtomicUint64) Add(d uint64) uint64 {
 func (x *AtomicUint64) CompareAndSwap(old, new uint64) bool {
 	g := AtomicPre(false)
 	ok := x.v.CompareAndSwap(old, new)
-	AtomicPost(g, &x.a, nil, mix(H(x.v.Load()), b2u(ok)).u(), true)
+	AtomicPost(g, &x.a, nil, mix(H(x.v.Load()), b2u(ok)).u(), ok)
 	return ok
 }
 
@@ -726,7 +743,7 @@ func SwapInt32(p *int32, n int32) int32 {
 func CompareAndSwapInt32(p *int32, old, new int32) bool {
 	g := AtomicPre(false)
 	ok := atomic.CompareAndSwapInt32(p, old, new)
-	AtomicPost(g, nil, unsafe.Pointer(p), uint64(uint32(atomic.LoadInt32(p)))|b2u(ok)<<32, true)
+	AtomicPost(g, nil, unsafe.Pointer(p), uint64(uint32(atomic.LoadInt32(p)))|b2u(ok)<<32, ok)
 	return ok
 }
 func LoadInt64(p *int64) int64 {
@@ -749,7 +766,7 @@ func AddInt64(p *int64, d int64) int64 {
 func CompareAndSwapInt64(p *int64, old, new int64) bool {
 	g := AtomicPre(false)
 	ok := atomic.CompareAndSwapInt64(p, old, new)
-	AtomicPost(g, nil, unsafe.Pointer(p), mix(H(atomic.LoadInt64(p)), b2u(ok)).u(), true)
+	AtomicPost(g, nil, unsafe.Pointer(p), mix(H(atomic.LoadInt64(p)), b2u(ok)).u(), ok)
 	return ok
 }
 func LoadUint32(p *uint32) uint32 {
@@ -772,7 +789,7 @@ func AddUint32(p *uint32, d uint32) uint32 {
 func CompareAndSwapUint32(p *uint32, old, new uint32) bool {
 	g := AtomicPre(false)
 	ok := atomic.CompareAndSwapUint32(p, old, new)
-	AtomicPost(g, nil, unsafe.Pointer(p), uint64(atomic.LoadUint32(p))|b2u(ok)<<32, true)
+	AtomicPost(g, nil, unsafe.Pointer(p), uint64(atomic.LoadUint32(p))|b2u(ok)<<32, ok)
 	return ok
 }
 func LoadUint64(p *uint64) uint64 {
@@ -795,6 +812,6 @@ func AddUint64(p *uint64, d uint64) uint64 {
 func CompareAndSwapUint64(p *uint64, old, new uint64) bool {
 	g := AtomicPre(false)
 	ok := atomic.CompareAndSwapUint64(p, old, new)
-	AtomicPost(g, nil, unsafe.Pointer(p), mix(H(atomic.LoadUint64(p)), b2u(ok)).u(), true)
+	AtomicPost(g, nil, unsafe.Pointer(p), mix(H(atomic.LoadUint64(p)), b2u(ok)).u(), ok)
 	return ok
 }
